@@ -91,6 +91,12 @@ func (r *recorder) count(h int, name string) int {
 	return n
 }
 
+func recSnapshot(r *recorder) []delivery {
+	r.mu.Lock()
+	defer r.mu.Unlock()
+	return append([]delivery{}, r.got...)
+}
+
 func nameOf(obj interface{}) string {
 	switch o := obj.(type) {
 	case *unstructured.Unstructured:
@@ -204,6 +210,8 @@ func TestVerifInformer(t *testing.T) {
 		nops := 6 + r.Intn(12)
 		for k := 0; k < nops; k++ {
 			op := vs.M{}
+			var extra vs.M
+			extraHandler := -1
 			listBefore := []int{countLog(sim, "list", "widgets"), countLog(sim, "list", "configmaps")}
 			closedBefore := []int{countLog(sim, "watch-closed", "widgets"), countLog(sim, "watch-closed", "configmaps")}
 			choice := r.Intn(12)
@@ -254,6 +262,87 @@ func TestVerifInformer(t *testing.T) {
 				h := nextHandler
 				nextHandler++
 				own := r.Chance(30)
+				// sometimes an outside write lands while the handler is being added (another goroutine is inside
+				// AddEventHandler, replaying the cache): the new handler must still see it
+				var names []string
+				for nm := range exists[s.res] {
+					names = append(names, nm)
+				}
+				sort.Strings(names)
+				if len(names) > 0 && s.instance == instance[s.res] && running[s.res] && r.Chance(35) {
+					name := names[r.Intn(len(names))]
+					inReplay, release, done := make(chan struct{}), make(chan struct{}), make(chan struct{})
+					var once sync.Once
+					base := handlerFor(rec, h)
+					gated := cache.ResourceEventHandlerFuncs{
+						AddFunc: func(o interface{}) { base.OnAdd(o, false) },
+						UpdateFunc: func(a, b interface{}) {
+							base.OnUpdate(a, b)
+							once.Do(func() {
+								close(inReplay)
+								select {
+								case <-release:
+								case <-time.After(400 * time.Millisecond):
+								}
+							})
+						},
+						DeleteFunc: func(o interface{}) { base.OnDelete(o) },
+					}
+					go func() {
+						_, _ = s.ri.Informer().AddEventHandler(gated)
+						close(done)
+					}()
+					select {
+					case <-inReplay:
+					case <-time.After(time.Second):
+					}
+					c := clients[s.res].Namespace("ns1")
+					cur, gerr := c.Get(context.TODO(), name, metav1.GetOptions{})
+					if gerr != nil {
+						t.Fatal(gerr)
+					}
+					cur.Object["spec"] = map[string]interface{}{"v": int64(1000 + k)}
+					if _, err := c.Update(context.TODO(), cur, metav1.UpdateOptions{}); err != nil {
+						t.Fatal(err)
+					}
+					// give the broadcast a chance to overtake the registration (it must not), then let the replay finish
+					var others []int
+					for _, o := range subs {
+						if o.res == s.res && o.instance == instance[s.res] {
+							others = append(others, o.handlers...)
+						}
+					}
+					waitFor(func() bool {
+						for _, oh := range others {
+							if rec.count(oh, name) == 0 {
+								return false
+							}
+						}
+						return len(others) > 0
+					}, 120*time.Millisecond)
+					close(release)
+					<-done
+					s.handlers = append(s.handlers, h)
+					all := append(append([]int{}, others...), h)
+					waitFor(func() bool {
+						for _, oh := range all {
+							n := 0
+							for _, d := range recSnapshot(rec) {
+								if d.Handler == oh && d.Name == name && d.Type != "resync" {
+									n++
+								}
+							}
+							if n == 0 {
+								return false
+							}
+						}
+						return true
+					}, 5*time.Second)
+					op = vs.M{"op": "addHandler", "sub": si, "handler": h, "ownResync": false, "concurrentEvent": true}
+					extra = vs.M{"op": "event", "res": s.res, "type": "update", "name": name, "concurrentWithAdd": true}
+					extraHandler = h
+					break
+				}
 				if own {
 					_, _ = s.ri.Informer().AddEventHandlerWithResyncPeriod(handlerFor(rec, h), 5*time.Minute)
 				} else {
@@ -313,7 +402,27 @@ func TestVerifInformer(t *testing.T) {
 				op = vs.M{"op": "event", "res": res, "type": typ, "name": name}
 			}
 			time.Sleep(25 * time.Millisecond) // settle: stray deliveries would show up here
-			op["deliveries"] = rec.take()
+			dels := rec.take()
+			if extra != nil {
+				// the concurrent pair is recorded as "add handler, then the event": the replay belongs to the first
+				var first, second []delivery
+				for _, d := range dels {
+					if d.Handler == extraHandler && d.Type == "resync" {
+						first = append(first, d)
+					} else {
+						second = append(second, d)
+					}
+				}
+				if first == nil {
+					first = []delivery{}
+				}
+				if second == nil {
+					second = []delivery{}
+				}
+				dels = first
+				extra["deliveries"] = second
+			}
+			op["deliveries"] = dels
 			op["lists"] = []int{countLog(sim, "list", "widgets") - listBefore[0], countLog(sim, "list", "configmaps") - listBefore[1]}
 			op["watchClosed"] = []int{countLog(sim, "watch-closed", "widgets") - closedBefore[0], countLog(sim, "watch-closed", "configmaps") - closedBefore[1]}
 			rc, infs := f.VerifCounts()
@@ -321,6 +430,13 @@ func TestVerifInformer(t *testing.T) {
 			op["refCount"] = rc
 			op["informers"] = infs
 			ops = append(ops, op)
+			if extra != nil {
+				for _, kk := range []string{"lists", "watchClosed", "refCount", "informers"} {
+					extra[kk] = op[kk]
+				}
+				extra["lists"], extra["watchClosed"] = []int{0, 0}, []int{0, 0}
+				ops = append(ops, extra)
+			}
 		}
 		// shut everything down
 		for _, s := range subs {
